@@ -81,6 +81,30 @@ func Overlay(opt *LoadOptions) (map[string][]byte, map[string]string, error) {
 	return ov, real, nil
 }
 
+// PkgPattern maps a repo-relative package directory to the pattern the go tool needs when run from
+// the repo root: "./dir" inside the root module, the import path for a directory that belongs to one
+// of the nested (replaced) etcd modules.
+func PkgPattern(repo, dir string) string {
+	d := dir
+	for d != "." && d != "" && d != "/" {
+		data, err := os.ReadFile(filepath.Join(repo, d, "go.mod"))
+		if err == nil {
+			for _, line := range strings.Split(string(data), "\n") {
+				if strings.HasPrefix(line, "module ") {
+					mod := strings.TrimSpace(strings.TrimPrefix(line, "module "))
+					rest, _ := filepath.Rel(d, dir)
+					if rest == "." {
+						return mod
+					}
+					return mod + "/" + filepath.ToSlash(rest)
+				}
+			}
+		}
+		d = filepath.Dir(d)
+	}
+	return "./" + dir
+}
+
 func Load(opt *LoadOptions) (*Program, error) {
 	ov, _, err := Overlay(opt)
 	if err != nil {
@@ -109,7 +133,7 @@ func Load(opt *LoadOptions) (*Program, error) {
 	}
 	var pats []string
 	for _, p := range opt.Packages {
-		pats = append(pats, "./"+p)
+		pats = append(pats, PkgPattern(opt.Repo, p))
 	}
 	pkgs, err := packages.Load(cfg, pats...)
 	if err != nil {
@@ -151,8 +175,13 @@ func initAllowed(path string) bool {
 	case "errors", "io", "strconv", "strings", "bytes", "unicode/utf8", "sort", "math", "bufio",
 		"hash/fnv", "encoding/binary", "context", "internal/oserror", "io/fs", "internal/bytealg",
 		"math/bits", "slices", "cmp", "hash", "internal/itoa", "unicode/utf16", "internal/stringslite",
-		"container/list", "go.etcd.io/etcd/raft/v3/quorum", "go.etcd.io/etcd/raft/v3/tracker",
-		"go.etcd.io/etcd/raft/v3/confchange":
+		"container/list":
+		return true
+	}
+	if strings.HasPrefix(path, "go.etcd.io/etcd/") {
+		// the copied-in etcd tree: package-level state (error values, tables, protobuf name maps) is
+		// initialised from the real init code; init-time calls that leave the modelled set (prometheus,
+		// protobuf registration, zap, math/rand) yield opaque handles
 		return true
 	}
 	if strings.HasPrefix(path, "github.com/innovationb1ue/RedisGO") {
